@@ -569,6 +569,82 @@ func nativeReplay(g *Group, rf *ReplayFile, replayPath string) (bool, string) {
 	return false, o
 }
 
+// nativeSelftest replays sampled explored paths natively (one go test run per
+// harness package).  It returns how many agreed and a description of every
+// disagreement: a path the executor saw returning must return natively and
+// witness the same reach labels in the same order.
+func nativeSelftest(g *Group, samples []AgreeSample) (int, []string) {
+	tmp, err := os.MkdirTemp("", "vself")
+	if err != nil {
+		return 0, []string{err.Error()}
+	}
+	defer os.RemoveAll(tmp)
+	ov, _, err := buildOverlay(g, true)
+	if err != nil {
+		return 0, []string{err.Error()}
+	}
+	base := filepath.Join(repoDir, g.Dir)
+	var tbl strings.Builder
+	for _, h := range g.Entries {
+		fmt.Fprintf(&tbl, "\t%q: %s,\n", h.Name, h.Name)
+	}
+	ts := strings.Replace(replayTestSrc, "PKGNAME", g.PkgName, 1)
+	ts = strings.Replace(ts, "HARNESSTABLE", tbl.String(), 1)
+	ov[filepath.Join(base, "zz_verif_replay_test.go")] = []byte(ts)
+	repl := map[string]string{}
+	i := 0
+	for virt, content := range ov {
+		i++
+		real := filepath.Join(tmp, fmt.Sprintf("f%d_%s", i, filepath.Base(virt)))
+		if err := os.WriteFile(real, content, 0o644); err != nil {
+			return 0, []string{err.Error()}
+		}
+		repl[virt] = real
+	}
+	ob, _ := json.Marshal(map[string]interface{}{"Replace": repl})
+	ovp := filepath.Join(tmp, "overlay.json")
+	os.WriteFile(ovp, ob, 0o644)
+	sb, _ := json.Marshal(samples)
+	sp := filepath.Join(tmp, "samples.json")
+	os.WriteFile(sp, sb, 0o644)
+	pat := "./" + g.Dir
+	if g.Dir == "." {
+		pat = "."
+	}
+	cmd := exec.Command("go", "test", "-vet=off", "-count=1", "-timeout", "300s", "-v", "-run", "^TestVerifSelftest$", "-overlay", ovp, pat)
+	cmd.Dir = repoDir
+	cmd.Env = append(goEnv(), "VERIF_SELFTEST="+sp)
+	out, _ := cmd.CombinedOutput()
+	got := map[int]string{}
+	for _, l := range strings.Split(string(out), "\n") {
+		if strings.HasPrefix(l, "VSELF ") {
+			f := strings.SplitN(l, " ", 3)
+			if n, err := strconv.Atoi(f[1]); err == nil && len(f) == 3 {
+				got[n] = f[2]
+			}
+		}
+	}
+	agreed := 0
+	var bad []string
+	for i, s := range samples {
+		want := "RETURNED " + strings.Join(s.Reach, ",")
+		g := strings.TrimSpace(got[i])
+		if g == strings.TrimSpace(want) {
+			agreed++
+			continue
+		}
+		if g == "" {
+			tail := string(out)
+			if len(tail) > 300 {
+				tail = tail[len(tail)-300:]
+			}
+			g = "no result (" + strings.ReplaceAll(tail, "\n", " / ") + ")"
+		}
+		bad = append(bad, fmt.Sprintf("%s values=%v: executor saw %q, native run gave %q", s.Harness, s.Values, want, g))
+	}
+	return agreed, bad
+}
+
 // ---------------------------------------------------------------------------
 // evidence
 
@@ -623,6 +699,7 @@ func cmdRun(args []string) int {
 	verbose := fs.Bool("v", false, "verbose")
 	noEvidence := fs.Bool("no-evidence", false, "do not write the evidence file")
 	noReplay := fs.Bool("no-replay", false, "do not replay counterexamples natively")
+	noSelftest := fs.Bool("no-selftest", false, "do not replay sampled explored paths natively (translator validation)")
 	smtlog := fs.String("smtlog", "", "log SMT of worker 0 to file")
 	jobs := fs.Int("j", runtime.NumCPU(), "worker slots")
 	if len(args) < 1 {
@@ -739,7 +816,11 @@ func cmdRun(args []string) int {
 			if er.hs.TimeoutS > 0 {
 				to = er.hs.TimeoutS
 			}
-			opts := RunOpts{Workers: nw, MaxSteps: er.hs.Steps, Tier: tierN, Verbose: *verbose, SolverBin: solverCmd(qms),
+			agree := 8
+			if *noSelftest || er.hs.Replay == "symbolic" {
+				agree = 0
+			}
+			opts := RunOpts{Agree: agree, Workers: nw, MaxSteps: er.hs.Steps, Tier: tierN, Verbose: *verbose, SolverBin: solverCmd(qms),
 				TimeoutMs: qms, Deadline: time.Now().Add(time.Duration(to) * time.Second), MaxSwitch: er.hs.Switches, SmtLog: *smtlog}
 			er.res = exploreHarness(er.ld.prog, fn, inits, opts)
 			er.viol, er.inc = classify(er.res, er.hs.Policy)
@@ -748,9 +829,36 @@ func cmdRun(args []string) int {
 	}
 	wg.Wait()
 
+	// translator validation: sampled explored paths must behave the same natively
+	agreeN, agreeOK := 0, 0
+	var agreeBad []string
+	if !*noSelftest {
+		byGroup := map[*Group][]AgreeSample{}
+		var order []*Group
+		for _, er := range sel {
+			if er.res == nil || len(er.res.Agree) == 0 {
+				continue
+			}
+			if _, ok := byGroup[er.g]; !ok {
+				order = append(order, er.g)
+			}
+			byGroup[er.g] = append(byGroup[er.g], er.res.Agree...)
+		}
+		for _, g := range order {
+			ok, bad := nativeSelftest(g, byGroup[g])
+			agreeN += len(byGroup[g])
+			agreeOK += ok
+			agreeBad = append(agreeBad, bad...)
+		}
+		fmt.Fprintf(os.Stderr, "  translator validation: %d sampled paths replayed natively, %d agree\n", agreeN, agreeOK)
+	}
+
 	// collect
 	known := loadKnown()
 	var inconclusive []string
+	for _, b := range agreeBad {
+		inconclusive = append(inconclusive, "SELFTEST-MISMATCH "+b)
+	}
 	exit := 0
 	nviol := 0
 	knownPrinted := map[string]bool{}
@@ -935,6 +1043,9 @@ func cmdRun(args []string) int {
 				"harnesses":           harnessSummaries,
 				"inconclusive":        inconclusive,
 				"known_findings":      len(knownPrinted),
+				"translator_validation": map[string]interface{}{
+					"what":          "explored paths turned into concrete inputs (a model of the path condition) and replayed natively with go test -overlay against the real build: each must return normally and witness the same reach labels in the same order as the executor saw",
+					"sampled_paths": agreeN, "agreed": agreeOK, "disagreements": agreeBad},
 			}}
 		if ev.Assumptions == nil {
 			ev.Assumptions = []string{}
